@@ -33,10 +33,11 @@ def run(ctx):
     drv = ctx.build("c19")
     T = 3600
     # MC: exhaustive exploration of the layout state machine (shrunk constants)
-    ctx.model_check("state/MCHistIndex", "state/MCHistIndexThorough" if ctx.thorough else "state/MCHistIndex",
-                    timeout=T, workers=4, name="MCHistIndex", coverage=ctx.thorough)
-    ctx.model_check("state/MCHistIndex", "state/MCHistIndexExt" if ctx.thorough else "state/MCHistIndexExtQuick",
-                    timeout=T, workers=4, name="MCHistIndexExt")
+    if os.environ.get("VERIF_DEV_SKIP_MC") != "1":      # development knob (mutation runs): MC does not depend on the Go code
+        ctx.model_check("state/MCHistIndex", "state/MCHistIndexThorough" if ctx.thorough else "state/MCHistIndex",
+                        timeout=T, workers=4, name="MCHistIndex", coverage=ctx.thorough)
+        ctx.model_check("state/MCHistIndex", "state/MCHistIndexExt" if ctx.thorough else "state/MCHistIndexExtQuick",
+                        timeout=T, workers=4, name="MCHistIndexExt")
     # R: TLC-generated behaviours executed on the real objects, judged by the trace specification
     for bm, cfg in ((0, "state/MCHistIndexSim"), (34, "state/MCHistIndexExtSim")):
         plans = mbt_plans(ctx, cfg, ctx.pick(40, 400), "MBT-bitmap%d" % bm)
